@@ -2,6 +2,7 @@ package checks
 
 import (
 	"fmt"
+	"math"
 	"net/http"
 	"os"
 	"os/exec"
@@ -116,6 +117,7 @@ func histFiles(ext string) map[string]string {
 		"repeats" + ext:         "{{ pattern.repeat(n) }}|{{ amount.decimal(sep, places) }}",
 		"args" + ext:            "{{ word.at(-back) }}|{{ shown.then(!muted, \"n/a\") }}|{{ -n }}|{{ word.at(back - 1) }}|{{ [1, 2, 3].slice(-(back), 3) }}|@each(w in [word])@if(!muted){{ w.repeat(-(-back)) }}@end@end",
 		"item" + ext:            "item {{ it.name }}/{{ it.qty }} {{ it }}",
+		"numbers" + ext:         "{{ x.str() }}|{{ x }}|{{ (x * 1.0).str() }}|{{ (0.0 * x).str() }}|{{ [[n, n + 1], [0, 0]] }}|{{ [1, [n], \"s\"] }}|@each(k in [[n], [2]]){{ k }}@end|{{ {a: [n], b: {c: n}} }}|{{ [[]].len() + n }}|{{ [\"a\", [\"b\" + n.str()]] }}",
 	}
 }
 
@@ -204,6 +206,13 @@ func histOps() []histOp {
 		{"String(args, back=3 muted=true)", str("args", func() map[string]any {
 			return map[string]any{"word": "stair", "back": 3, "shown": true, "muted": true, "n": -4}
 		})},
+		// one loaded page with zeros of either sign, and with literals nested in literals that hold different values each time
+		{"String(numbers, +0.0 n=1)", str("numbers", func() map[string]any { return map[string]any{"x": 0.0, "n": 1} })},
+		{"String(numbers, -0.0 n=5)", str("numbers", func() map[string]any { return map[string]any{"x": math.Copysign(0, -1), "n": 5} })},
+		{"EvaluateString(-0.0 as string)", func(h *histEnv) string {
+			out, err := textwire.EvaluateString("{{ x.str() }}|{{ (-0.0).str() }}|{{ 0.0.str() }}", map[string]any{"x": math.Copysign(0, -1)})
+			return fmt.Sprintf("out=%q err=%v", out, err)
+		}},
 		// two different struct types that print the same type name
 		{"String(item, local type A)", str("item", func() map[string]any { return map[string]any{"it": histItemA()} })},
 		{"String(item, local type B)", str("item", func() map[string]any { return map[string]any{"it": histItemB()} })},
